@@ -597,4 +597,17 @@ theorem subsequentLevel_is_translated (s : List Char) :
 
 end Translated
 
+section TranslatedFix
+open GapicModel.PyRt
+
+/-- **`fixWhitespace` IS the code's current `fix_whitespace`**: the three substitutions (patterns re-parsed by CPython from
+the current source), their order, `rstrip()` and the final newline, as translated from `gapic/generator/formatter.py` on
+every run (`Bridge.Funcs.fix_whitespace`) -/
+theorem fixWhitespace_is_translated (s : List Char) :
+    GapicModel.Model.Whitespace.fixWhitespace s = Pinned.Funcs.fix_whitespace s := by
+  simp only [GapicModel.Model.Whitespace.fixWhitespace, GapicModel.Model.Whitespace.fixWhitespaceWith, Pinned.Funcs.fix_whitespace, reSub, PyRt.rstrip]
+  rfl
+
+end TranslatedFix
+
 end GapicModel.Props.C20
